@@ -126,13 +126,30 @@ func (d *c14Driver) connect(kind string) (bool, *c14Conn) {
 	case "shell3":
 		if s, err := client.NewSession(); err == nil {
 			for i := 0; i < 3; i++ {
-				s.SendRequest("shell", true, nil)
+				if !c14Request(s, "shell", true) {
+					break // a server that stops answering must not hang the harness
+				}
 			}
 		}
 	case "badchannel":
 		client.OpenChannel("direct-tcpip", nil)
 	}
 	return true, c
+}
+
+// c14Request sends a channel request and waits for the reply at most 15 s.
+func c14Request(s *ssh.Session, name string, wantReply bool) bool {
+	done := make(chan bool, 1)
+	go func() {
+		ok, err := s.SendRequest(name, wantReply, nil)
+		done <- err == nil && (ok || !wantReply)
+	}()
+	select {
+	case ok := <-done:
+		return ok
+	case <-time.After(15 * time.Second):
+		return false
+	}
 }
 
 // syncBurst: k clients run their handshake up to the point where they must
@@ -375,7 +392,25 @@ func c14Body(r *vlib.Run) int {
 					r.SetAdd("op", "badrequest")
 					if ok {
 						if s, err := c.client.NewSession(); err == nil {
-							s.SendRequest("exec", true, ssh.Marshal(struct{ C string }{"id"}))
+							switch variant := hrng.Intn(3); variant {
+							case 0:
+								s.SendRequest("exec", true, ssh.Marshal(struct{ C string }{"id"}))
+							default:
+								// a shell, then more requests than the SSH library queues
+								// per channel (16): paced, or as one burst
+								r.SetAdd("op", fmt.Sprintf("badrequest-x40-burst=%v", variant == 2))
+								trace = append(trace, fmt.Sprintf("40 requests after shell, burst=%v", variant == 2))
+								s.StdinPipe()
+								s.StdoutPipe()
+								if c14Request(s, "shell", true) {
+									for q := 0; q < 40; q++ {
+										s.SendRequest([]string{"window-change", "env", "verif-unknown@example"}[q%3], false, make([]byte, 16))
+										if variant == 1 {
+											time.Sleep(3 * time.Millisecond)
+										}
+									}
+								}
+							}
 						}
 						time.Sleep(50 * time.Millisecond)
 						c.close(false)
